@@ -365,7 +365,7 @@ func NewBatch(prop, tier string, seed uint64) *Batch {
 	thorough := tier == "thorough"
 	switch prop {
 	case "C01":
-		realLife := []uint8{4, 6}
+		realLife := []uint8{4, 6, 8}
 		stubLife := []uint8{4, 6, 8, 10, 12, 14}
 		if thorough {
 			realLife = []uint8{4, 6, 8, 10}
